@@ -18,7 +18,7 @@ _E_APPLY = E.apply
 LEVEL = 'model_checking'
 TECHNIQUE = ('explicit-state bfs over edit histories with exhaustive enumeration of invalid requests (fault alphabet) at '
              'every target; pre/post state comparison and differential probe against a fresh twin on every raising transition')
-LEVEL_TEXT = ('every (target x kind of invalid request) of the fault alphabet plus every naturally refused request of the '
+LEVEL_TEXT = ('every (target x kind of invalid request) of the fault alphabet (unparsable / wrong-category / miscounted code, bad options, consumed and foreign operands, bad indices, identifier lists, primitive fields with values of the wrong kind or range) plus every naturally refused request of the '
               'edit alphabet is issued on the real objects from every start program and after every valid first edit; all '
               'raising transitions are checked, none sampled')
 LEVEL_NOTE = ('trusted: CPython ast for state comparison; faults are natural invalid requests only (no exceptions are '
@@ -29,7 +29,7 @@ RULE = ('bfs depth<=2; transitions = requests issued; a raising transition is no
 ASSUMPTIONS = ['FST objects passed as code are built fresh for every request (they are consumed)',
                'KeyboardInterrupt-like asynchronous faults are out of scope']
 BOUNDS = {
-    'quick': '52 programs; depth 1: full fault alphabet (27 fault kinds at every node/list field and at the root) + 1-code edit alphabet; '
+    'quick': '62 programs; depth 1: full fault alphabet (29 fault kinds at every node/list field and at the root) + 1-code edit alphabet; '
              'depth 2 (programs under 90 characters): after every distinct valid first edit (replace, remove, insert, slice put, comment put), the reduced (lite) fault alphabet',
     'thorough': 'quick + depth 2 after the 3-code alphabet with 2 forms, faults with all option settings',
 }
